@@ -557,6 +557,51 @@ def subst_guard(g, amap, inst):
     return (g[0], subst_term(g[1], amap, inst) if g[1] is not None else None, (inst,) + tuple(g[2]))
 
 
+def _rw(t, heap):
+    if not isinstance(t, tuple) or not t:
+        return t
+    if t[0] == 'field' and t in heap:
+        return heap[t]
+    if t[0] in ('const', 'arg', 'upvar', 'unk', 'fnitem'):
+        return t
+    if t[0] == 'call' and len(t) == 4:
+        return ('call', t[1], tuple(_rw(a, heap) for a in t[2]), t[3])
+    return tuple(_rw(x, heap) if isinstance(x, tuple) else x for x in t)
+
+
+def heap_rewrite(evs, retv, heap):
+    """events of an inlined helper with reads of places the caller has written replaced by the written values; a place the
+    helper itself writes stops being rewritten from then on"""
+    heap = dict(heap)
+    out = []
+    for e in evs:
+        d = {}
+        for k, v in e.d.items():
+            if k in ('term', 'value', 'result', 'on'):
+                d[k] = _rw(v, heap) if isinstance(v, tuple) else v
+            elif k == 'args':
+                d[k] = tuple(_rw(a, heap) for a in v)
+            else:
+                d[k] = v
+        ne = Ev(e.kind, e.bb, e.line, e.held, e.mac, **d)
+        out.append(ne)
+        if e.kind == 'assign' and e.d['place'] in heap:
+            heap[e.d['place']] = d.get('value', e.d['value'])
+    return out, _rw(retv, heap) if isinstance(retv, tuple) else retv
+
+
+def set_field(agg, field, value):
+    """aggregate term with one named field replaced (None when the term is not a literal aggregate with that field)"""
+    if not (isinstance(agg, tuple) and agg and agg[0] == 'agg' and len(agg) > 4 and agg[4]):
+        return None
+    names = agg[4].split(',')
+    fname = field.split('.')[-1]
+    if fname not in names or len(names) != len(agg[3]):
+        return None
+    i = names.index(fname)
+    return (agg[0], agg[1], agg[2], tuple(value if j == i else x for j, x in enumerate(agg[3])), agg[4])
+
+
 def instantiate_path(cp, args, inst, caller_held, callee, amap=None, writes=None):
     """events of callee path `cp` with its parameters replaced by the caller's argument terms.
     `writes` (a list) receives (parameter index, new value) for every assignment through a parameter
@@ -572,6 +617,16 @@ def instantiate_path(cp, args, inst, caller_held, callee, amap=None, writes=None
             # later reads of the parameter inside the helper see the new value
             amap = dict(amap)
             amap[e.d['place'][1]] = subst_term(e.d['value'], amap, inst)
+        elif writes is not None and e.kind == 'assign' and e.d['place'][0] == 'field' and e.d['place'][1][0] == 'arg' and isinstance(e.d['place'][1][1], int):
+            # `param.field = v` through a `&mut` parameter: the caller's aggregate gets the new field
+            k = e.d['place'][1][1]
+            newv = subst_term(e.d['value'], amap, inst)
+            cur = amap.get(k)
+            upd = set_field(cur, e.d['place'][2], newv) if cur is not None else None
+            if upd is not None:
+                writes.append((k, upd))
+                amap = dict(amap)
+                amap[k] = upd
         d = {}
         for k, v in e.d.items():
             if k in ('term', 'value', 'place', 'result', 'on'):
@@ -674,6 +729,8 @@ def combinator_plan(callee, args):
             return x, RES, [('Ok', ('app', args[1], [O], ident)), ('Err', ('val', ('const', 'false')))]
         if m == 'is_err_and' and len(args) == 2:
             return x, RES, [('Ok', ('val', ('const', 'false'))), ('Err', ('app', args[1], [E], ident))]
+    if 'core::bool::' in callee and callee.endswith('::then_some') and len(args) == 2:
+        return args[0], 'bool', [('true', ('val', mk_some(args[1]))), ('false', ('val', NONE_TERM))]
     if 'core::bool::' in callee and callee.endswith('::then') and len(args) == 2:
         return args[0], 'bool', [('true', ('app', args[1], [], mk_some)), ('false', ('val', NONE_TERM))]
     # iter.for_each(f): the loop `for x in iter { f(x) }`, analysed like a loop body (zero or one iteration per path)
@@ -829,6 +886,21 @@ class Fn:
             if 'fndef' in o:
                 # a function item used as a value: ('fnitem', path, ctor adt | '', ctor variant | '')
                 return ('fnitem', v, o.get('ctor_adt', ''), o.get('ctor_variant', ''))
+            # a named constant of the crate (`const BLOCK_START: usize = 0`) stands for its value
+            cb = self.facts.by.get(v)
+            if cb is not None and cb.get('kind') == 'const':
+                cv = self.facts._const_vals.get(v, False) if hasattr(self.facts, '_const_vals') else False
+                if cv is False:
+                    if not hasattr(self.facts, '_const_vals'):
+                        self.facts._const_vals = {}
+                    self.facts._const_vals[v] = None
+                    cv = self.promoted_value(v)
+                    # only plain values (numbers, orderings, unit variants) are substituted
+                    if cv is not None and not (cv[0] == 'const' or (cv[0] == 'agg' and not cv[3])):
+                        cv = None
+                    self.facts._const_vals[v] = cv
+                if cv is not None:
+                    return cv
             return ('const', v)
         if o['k'] in ('copy', 'move'):
             return self.place_term(o['p'], env, heap)
@@ -1195,7 +1267,7 @@ class Fn:
                     if t['t'] < 0:
                         out.append(Path(events, 'diverge', trail))
                         return
-                    if _depth < 2 and ev is not None and facts.is_new_fn(callee):
+                    if _depth < 3 and ev is not None and facts.is_new_fn(callee):
                         cf = facts.fn(facts.by[callee])
                         try:
                             cps = cf.paths(budget=3000, max_visits=max_visits, _depth=_depth + 1, desugar=desugar)
@@ -1208,6 +1280,9 @@ class Fn:
                                 inst = facts._inst[0]
                                 pwrites = []
                                 evs2, retv, ret_held = instantiate_path(cp, args, inst, held_here, callee, writes=pwrites)
+                                # what the caller stored through a place before the call is what the helper reads from it
+                                if heap:
+                                    evs2, retv = heap_rewrite(evs2, retv, heap)
                                 # decisions the helper took on its parameters may be decided by the
                                 # caller's arguments or by what this path already knows
                                 memo_i = decisions_feasible(evs2, memo, facts)
@@ -1620,7 +1695,23 @@ def decisions_feasible(evs, memo, facts):
     return m
 
 
+def _lit_variant(t):
+    """variant name when t is the discriminant of a literal enum value (built on the path or an enum constant)"""
+    if t[0] == 'discr':
+        x = t[1]
+        if x[0] == 'agg' and x[2]:
+            return x[2]
+        if x[0] == 'const' and '::' in x[1] and not x[1].split('::')[-1][:1].isdigit():
+            return x[1].split('::')[-1]
+    return None
+
+
 def const_value(t):
+    if t[0] == 'bin' and t[1] in ('Eq', 'Ne'):
+        # two literal enum values compared through their discriminants (derived PartialEq on unit-like enums)
+        va, vb = _lit_variant(t[2]), _lit_variant(t[3])
+        if va is not None and vb is not None:
+            return 1 if (va == vb) == (t[1] == 'Eq') else 0
     if t[0] == 'bin' and t[1] in ('Eq', 'Ne', 'Lt', 'Le', 'Gt', 'Ge'):
         lb, lk = lin(t[2])
         rb, rk = lin(t[3])
